@@ -102,3 +102,91 @@ Proof.
     cbn [app]. rewrite app_nil_r. reflexivity.
   - repeat apply ascii_app; try assumption; constructor; try lia; constructor.
 Qed.
+
+(* ---- titles in any encoding: the label of a concatenation is the concatenation of the labels whenever
+   the second part does not begin with a UTF-8 continuation byte (which no valid UTF-8 text does) *)
+Definition starts_clean (b : list N) : Prop := match b with [] => True | x :: _ => is_cont x = false end.
+
+Lemma lflush_first_irrelevant p f : is_cont p = false -> lflush (mkl (Some p) f) = lflush (mkl (Some p) true).
+Proof. intros Hp. unfold lflush, ldecide. cbn [pend LabelModel.first]. rewrite Hp. reflexivity. Qed.
+
+(* running from a pending byte: output and flush, as one list *)
+Definition lrun (p : N) (f : bool) (s : list N) : list N :=
+  snd (trun lstate lstep (mkl (Some p) f) s) ++ lflush (fst (trun lstate lstep (mkl (Some p) f) s)).
+
+Lemma lrun_first_irrelevant p f s : is_cont p = false -> lrun p f s = lrun p true s.
+Proof.
+  intros Hp. unfold lrun. destruct s as [|b r'].
+  - cbn [trun fst snd app]. apply lflush_first_irrelevant. exact Hp.
+  - rewrite !trun_pending. cbn [fst snd]. unfold ldecide. rewrite Hp. reflexivity.
+Qed.
+
+Lemma label_cons p r : label_from_string (p :: r) = lrun p true r.
+Proof.
+  unfold label_from_string, transduce, lrun.
+  assert (E : trun lstate lstep linit (p :: r) = trun lstate lstep (mkl (Some p) true) r).
+  { cbn [trun]. unfold lstep at 1, linit at 1. cbn [pend]. destruct (trun lstate lstep (mkl (Some p) true) r). reflexivity. }
+  rewrite E. destruct (trun lstate lstep (mkl (Some p) true) r). reflexivity.
+Qed.
+
+Lemma lrun_app a : forall p f b0 b, is_cont b0 = false ->
+  lrun p f (a ++ b0 :: b) = lrun p f a ++ lrun b0 true b.
+Proof.
+  induction a as [|x a IH]; intros p f b0 b Hb.
+  - rewrite <- (lrun_first_irrelevant b0 false b Hb). unfold lrun. cbn [app]. rewrite trun_pending. cbn [fst snd trun app].
+    rewrite Hb. unfold lflush at 2. cbn [pend LabelModel.first]. rewrite <- app_assoc. reflexivity.
+  - specialize (IH x false b0 b Hb). unfold lrun in *. cbn [app]. rewrite !trun_pending. cbn [fst snd].
+    rewrite <- app_assoc, IH, <- !app_assoc. reflexivity.
+Qed.
+
+Lemma label_app a b : starts_clean b -> label_from_string (a ++ b) = label_from_string a ++ label_from_string b.
+Proof.
+  intros Hb. destruct b as [|b0 b]; [rewrite app_nil_r; cbn; rewrite app_nil_r; reflexivity|]. cbn in Hb.
+  destruct a as [|p a].
+  - reflexivity.
+  - cbn [app]. rewrite !label_cons. apply lrun_app. exact Hb.
+Qed.
+
+Lemma ascii_starts_clean l : ascii l -> starts_clean l.
+Proof. intros H. destruct l as [|x r]; [exact I|]. inversion H; subst. apply is_cont_ascii. assumption. Qed.
+
+Lemma label_decoration d : ascii d -> forallb (fun b => negb (label_allowed b)) d = true -> label_from_string d = [].
+Proof.
+  intros Ha Hd. rewrite (label_ascii d Ha). unfold label_spec. induction d as [|x r IH]; [reflexivity|].
+  cbn [forallb] in Hd. apply andb_true_iff in Hd as [Hx Hr]. apply negb_true_iff in Hx. cbn [filter]. rewrite Hx.
+  inversion Ha; subst. apply IH; assumption.
+Qed.
+
+(* the id of a heading, the label of its automatic link and the label of a reference to its title agree
+   for every title that does not begin with a continuation byte - in particular for every valid UTF-8 title *)
+Theorem header_id_is_reference_utf8 st title : starts_clean title ->
+  header_id st title = reference_label title /\ autolink_label st title = reference_label title.
+Proof.
+  intros Ht. unfold header_id, autolink_label, reference_label.
+  assert (E : label_from_string (label_span st title) = label_from_string title); [|rewrite E; auto].
+  assert (Hnl : label_from_string [10] = []) by reflexivity.
+  destruct st as [l c|n|n]; cbn [label_span header_span].
+  - set (pre := repeat 35 l ++ [32]).
+    set (post := (match c with O => [] | _ => 32 :: repeat 35 c end) ++ [10]).
+    assert (Hpre : ascii pre /\ forallb (fun b => negb (label_allowed b)) pre = true).
+    { unfold pre. split; [apply ascii_app; [apply ascii_repeat; lia|constructor; [lia|constructor]]|].
+      rewrite forallb_app. rewrite andb_true_iff. split; [|reflexivity]. clear. induction l; [reflexivity|]. cbn [repeat forallb]. rewrite IHl. reflexivity. }
+    assert (Hpost : ascii post /\ forallb (fun b => negb (label_allowed b)) post = true).
+    { unfold post. split.
+      - apply ascii_app; [|constructor; [lia|constructor]]. destruct c; [constructor|]. constructor; [lia|]. apply ascii_repeat. lia.
+      - rewrite forallb_app. rewrite andb_true_iff. split; [|reflexivity]. destruct c; [reflexivity|]. cbn [forallb]. rewrite andb_true_iff. split; [reflexivity|].
+        generalize (S c). clear. intros k. induction k; [reflexivity|]. cbn [repeat forallb]. rewrite IHk. reflexivity. }
+    assert (Eq : repeat 35 l ++ [32] ++ title ++ post = pre ++ title ++ post)
+      by (unfold pre; rewrite <- !app_assoc; reflexivity).
+    rewrite Eq. clear Eq.
+    clearbody pre post. destruct title as [|t0 tr].
+    + change (pre ++ [] ++ post) with (pre ++ post). rewrite (label_app pre post (ascii_starts_clean post (proj1 Hpost))).
+      rewrite (label_decoration pre (proj1 Hpre) (proj2 Hpre)), (label_decoration post (proj1 Hpost) (proj2 Hpost)). reflexivity.
+    + assert (Hc : starts_clean ((t0 :: tr) ++ post)) by exact Ht.
+      rewrite (label_app pre ((t0 :: tr) ++ post) Hc).
+      rewrite (label_decoration pre (proj1 Hpre) (proj2 Hpre)).
+      rewrite (label_app (t0 :: tr) post (ascii_starts_clean post (proj1 Hpost))).
+      rewrite (label_decoration post (proj1 Hpost) (proj2 Hpost)). cbn [app]. apply app_nil_r.
+  - rewrite label_app by (cbn; reflexivity). rewrite Hnl. apply app_nil_r.
+  - rewrite label_app by (cbn; reflexivity). rewrite Hnl. apply app_nil_r.
+Qed.
